@@ -32,6 +32,7 @@ var futOps = []struct{ name, text string }{
 	{"done?", "(future-done? f)"},
 	{"cancelled?", "(future-cancelled? f)"},
 	{"cancel", "(future-cancel f)"},
+	{"deref-ctx-ended", "(deref f)"}, // evaluated under a context that has already ended
 }
 
 type futOp struct {
@@ -214,7 +215,13 @@ func init() {
 								s.Point("op-start")
 								st.clock++
 								h.inv = st.clock
-								res, err, pn := lx.Eval(context.Background(), lx.MustRead(futOps[o].text), st.scope)
+								opCtx := context.Background()
+								if futOps[o].name == "deref-ctx-ended" {
+									c, cancel := context.WithCancel(context.Background())
+									cancel()
+									opCtx = c
+								}
+								res, err, pn := lx.Eval(opCtx, lx.MustRead(futOps[o].text), st.scope)
 								st.clock++
 								h.ret = st.clock
 								h.done = true
@@ -328,6 +335,12 @@ func init() {
 							derefs = append(derefs, h)
 						case 3:
 							cancels = append(cancels, h)
+						case 4:
+							// the caller's context had ended: the timeout error or the outcome are both fine,
+							// but an outcome must agree with what the other derefs return
+							if !strings.HasPrefix(h.result, "error:timeout") {
+								derefs = append(derefs, h)
+							}
 						}
 					}
 					// every reader gets the same outcome
